@@ -542,8 +542,87 @@ fn exact_fit_arguments<C: CI>(ctx: &mut Ctx) {
     });
 }
 
+/// Edits that move 2^10 .. 2^16 symbols (65 .. 2049 machine words) in ONE call: extend from an iterator of that many
+/// symbols (inherent and trait form), append / insert / prepend of a slice that long, removal of a range that long,
+/// truncation, then single pushes; random and structured contents; the model is compared after every step.
+fn huge_edits<C: CI>(ctx: &mut Ctx) {
+    let a = C::alpha();
+    let name = C::NAME;
+    let noff = n_offsets(a.bits);
+    if ctx.lite {
+        return;
+    }
+    ctx.group(&format!("{name}/huge-edits"), |ctx| {
+        let sym = |c: u8| C::try_from_bits(c).expect("model code");
+        for (k, n) in huge_lengths(ctx, a.bits).into_iter().enumerate() {
+            let big = structured_codes(&mut ctx.rng, a, n, k);
+            let pad = [1 % noff, 0, (k * 5 + 3) % noff][k % 3];
+            let parg = Padded::<C>::new(&mut ctx.rng, pad, &big, 2);
+            let arg = parg.slice();
+            let s0 = [0usize, 5, n / 3, 1][k % 4];
+            let mut m = rand_codes(&mut ctx.rng, a, s0);
+            let mut seq = mk::<C>(&m);
+            let mut log: Vec<String> = vec![format!("start len {s0}")];
+            let steps: Vec<&str> = match k % 3 { 0 => vec!["extend", "append", "remove", "insert", "truncate", "push"], 1 => vec!["Extend::extend", "prepend", "insert", "remove", "push", "extend"], _ => vec!["append", "extend", "truncate", "Extend::extend", "remove", "push"] };
+            for step in steps {
+                let len = m.len();
+                let r = observe(|| {
+                    match step {
+                        "extend" => { seq.extend(big.iter().map(|c| sym(*c))); m.extend(&big); }
+                        "Extend::extend" => { Extend::extend(&mut seq, big.iter().map(|c| sym(*c)).filter(|_| true)); m.extend(&big); }
+                        "append" => { seq.append(arg); m.extend(&big); }
+                        "prepend" => { seq.prepend(arg); let mut v = big.clone(); v.extend(m.iter()); m = v; }
+                        "insert" => { let at = len / 2; seq.insert(at, arg); let tail = m.split_off(at); m.extend(&big); m.extend(tail); }
+                        "remove" => { let x = len / 4; let y = (x + n).min(len); seq.remove(x..y); m.drain(x..y); }
+                        "truncate" => { let t = len / 2 + 1; seq.truncate(t); m.truncate(t); }
+                        _ => { for c in big.iter().take(3) { seq.push(sym(*c)); m.push(*c); } }
+                    }
+                    (seq, m)
+                });
+                ctx.eval();
+                log.push(format!("{step}({n} symbols, pattern {}, argument at pad {pad})", k % 7));
+                match r {
+                    Ok((s2, m2)) => {
+                        seq = s2;
+                        m = m2;
+                    }
+                    Err(pm) => {
+                        check!(ctx, false, format!("edit|{name}|panics"), "{name} {:?}: panicked: {pm}", log);
+                        seq = Seq::new();
+                        m = Vec::new();
+                        break;
+                    }
+                }
+                let hist = || format!("{name} {:?}", log);
+                if !verify_huge::<C>(ctx, &seq, &m, &hist) {
+                    break;
+                }
+            }
+            cell!(ctx, "{name}/huge-edits/2^{}", usize::BITS - n.leading_zeros());
+            ctx.nontrivial(fp(&[b"hugeedit", name.as_bytes(), &(n as u64).to_le_bytes(), &[k as u8]]));
+        }
+    });
+}
+/// `verify` for long values: messages name the first differing position instead of printing the texts
+fn verify_huge<C: CI>(ctx: &mut Ctx, seq: &Seq<C>, m: &[u8], hist: &dyn Fn() -> String) -> bool {
+    let a = C::alpha();
+    let name = C::NAME;
+    let before = ctx.n_viols();
+    check!(ctx, seq.len() == m.len(), format!("edit|{name}|length"), "{}: len {} want {}", hist(), seq.len(), m.len());
+    let got = codes_of::<C>(seq);
+    let first = got.iter().zip(m).position(|(g, w)| g != w);
+    check!(ctx, got.len() == m.len() && first.is_none(), format!("edit|{name}|symbols"), "{}: {} symbols (want {}), first difference at position {:?}", hist(), got.len(), m.len(), first);
+    let nb = m.len() * a.bits as usize;
+    check!(ctx, seq.verif_layout().1 == nb, format!("edit|{name}|bit-length"), "{}: bit length {} want {nb}", hist(), seq.verif_layout().1);
+    check!(ctx, model::live_bits(seq.into_raw(), nb) == model::pack_words(a.bits, m), format!("edit|{name}|raw-image"), "{}: raw image differs from the packed model", hist());
+    let fresh = mk::<C>(m);
+    check!(ctx, *seq == fresh && hash_stream(seq) == hash_stream(&fresh) && show::<C>(seq) == a.text(m), format!("edit|{name}|eq-fresh-parse"), "{}: not equal to / hashes or displays differently from a fresh parse of the model", hist());
+    ctx.n_viols() == before
+}
+
 fn run<C: CI>(ctx: &mut Ctx) {
     let name = C::NAME;
+    huge_edits::<C>(ctx);
     exact_fit_arguments::<C>(ctx);
     panicking_iterator::<C>(ctx);
     exhaustive::<C>(ctx, 1);
